@@ -107,7 +107,7 @@ func initAllow(path string) bool {
 		return true
 	}
 	switch path {
-	case "github.com/macrat/simplexer", "unicode", "strconv", "github.com/dlclark/regexp2", "github.com/dlclark/regexp2/syntax":
+	case "github.com/macrat/simplexer", "unicode", "strconv", "github.com/dlclark/regexp2", "github.com/dlclark/regexp2/syntax", "github.com/lithammer/dedent":
 		return true
 	}
 	return false
